@@ -37,7 +37,7 @@ def fresh_iterator_rules(ctx):
         ctx.ob("C06.e", "ctor-only-in-new:" + M.short_name(fn.name), ok, "FindMatchesImpl is constructed in %s" % fn.name, fn.loc(bb, i))
     new = F.fn(r"FindMatchesImpl::<..>::new$")
     ctx.analysed_fn(new)
-    ex, paths = run_fn(new, F, Model(), inline=r"ScannerImpl::reset$")
+    ex, paths = run_fn(new, F, Model(), inline=r"ScannerImpl::reset$|ScannerImpl as scanner::ScannerModeSwitcher>::set_mode$")
     rp = ret_paths(paths)
     ctx.floor("C06.e", "return paths of FindMatchesImpl::new", len(rp), 1)
     for p in rp:
@@ -52,7 +52,7 @@ def fresh_iterator_rules(ctx):
             detail = "returned scanner_impl = %s" % S.vstr(si)
         ctx.ob("C06.e", "new-resets-the-returned-scanner", ok, detail, new.loc())
     rst = F.fn(r"ScannerImpl::reset$")
-    ex, paths = run_fn(rst, F, Model())
+    ex, paths = run_fn(rst, F, Model(), inline=r"ScannerImpl as scanner::ScannerModeSwitcher>::set_mode$")
     for p in ret_paths(paths):
         ws = heap_writes(p, "current_mode")
         ctx.ob("C06.e", "reset-writes-0", len(ws) == 1 and ws[0][2] == ("int", 0), "reset writes current_mode = %s" % [S.vstr(w[2]) for w in ws], rst.loc())
@@ -180,6 +180,90 @@ def compiled_mode_rules(ctx, rule="C06.h"):
     ctx.floor(rule, "MultiPatternNfa::try_from_patterns calls", n, 1)
 
 
+def transition_lookup_rules(ctx):
+    """C06.d: the lookup that decides whether a token type switches the mode (used by next and by peek_n)."""
+    F = ctx.facts
+    # ---- C06.d three-way table of the ordered search -----------------------------------------------
+    # Orderings are abstracted by the set {L,E,G} of outcomes of (token_type ? entry token type) consistent with
+    # the comparisons a path assumed (cmp+match, <, ==, ... are all accepted forms).
+    from .kernel import OUT2SET, FLIP, binop_set
+    for pat in (r"CompiledScannerMode::has_transition$",):
+        ht = F.fn(pat)
+        ctx.analysed_fn(ht)
+        ex, paths = run_fn(ht, F, Model())
+        table = {}
+        for p in paths:
+            got_item = any(e[0] == "call" and re.search(r"Iterator>::next$", e[2]) for e in p.events) and any("item@" in S.fstr(c) for c, o in p.conds)
+            oset = {"L", "E", "G"}
+            unrelated = []
+            itemsym = None
+            for c, o in p.conds:
+                a_ = b_ = None
+                cs = None
+                if c[0] == "discr" and c[1][0] == "cmp":
+                    a_, b_ = c[1][1], c[1][2]
+                    if isinstance(o, tuple):
+                        continue
+                    cs = OUT2SET.get(dict((dv, n) for n, dv in c[2]).get(o))
+                elif c[0] == "binop" and c[1] in ("Lt", "Le", "Gt", "Ge", "Eq", "Ne") and isinstance(o, bool):
+                    a_, b_ = c[2], c[3]
+                    cs = binop_set(c[1], o)
+                if a_ is None or cs is None:
+                    continue
+                sa, sb = S.fstr(a_), S.fstr(b_)
+                ma, mb = re.match(r"(item@bb\d+)\.0$", sa), re.match(r"(item@bb\d+)\.0$", sb)
+                if sa == "token_type" and mb:
+                    oset &= cs
+                    itemsym = mb.group(1)
+                elif sb == "token_type" and ma:
+                    oset &= {FLIP[x] for x in cs}
+                    itemsym = ma.group(1)
+                else:
+                    unrelated.append("%s vs %s" % (sa, sb))
+            for u in unrelated:
+                ctx.ob("C06.d", "cmp-operands", False, "search compares %s (expected the token type with the entry's token type)" % u, ht.loc())
+            if itemsym is None:
+                if p.end[0] == "return":
+                    table["exhausted"] = S.vstr(p.end[1])
+                    ctx.ob("C06.d", "exhausted->None", variant_of(ex, p, p.end[1]) == "None", "list exhausted returns %s" % S.vstr(p.end[1]), ht.loc())
+                continue
+            for o_ in sorted(oset):
+                name = {"L": "Less", "E": "Equal", "G": "Greater"}[o_]
+                if p.end[0] == "return":
+                    r = p.end[1]
+                    rv = variant_of(ex, p, r)
+                    table[name] = S.vstr(r)
+                    if o_ == "L":
+                        ctx.ob("C06.d", "Less->None", rv == "None", "token type below the entry returns %s (sorted list: no later entry can match)" % S.vstr(r), ht.loc())
+                    elif o_ == "E":
+                        ok = rv == "Some" and S.fstr(r[3][0]) == itemsym + ".1"
+                        ctx.ob("C06.d", "Equal->Some(target of same entry)", bool(ok), "equal token type returns %s" % S.vstr(r), ht.loc())
+                    else:
+                        ctx.ob("C06.d", "Greater->continue", False, "token type above the entry returns %s instead of continuing" % S.vstr(r), ht.loc())
+                elif p.end[0] == "cut":
+                    table[name] = "continue"
+                    ctx.ob("C06.d", name + "->continue", o_ == "G", "search continues when the token type is %s than the entry" % name, ht.loc())
+                else:
+                    ctx.ob("C06.d", "path-end", False, "unexpected path end %s" % (p.end,), ht.loc())
+        ctx.ob("C06.d", "table-complete", set(table) >= {"exhausted", "Less", "Equal", "Greater"}, "table rows: %s" % table, ht.loc())
+        ctx.sample({"rule": "C06.d", "has_transition_table": table})
+    # the iterator ranges over self.transitions without adapters
+    ht = F.fn(r"CompiledScannerMode::has_transition$")
+    adapters = [M.call_name(t) for bb, t in ht.calls(r"iter::Iterator>::(rev|skip|take|filter|step_by|skip_while|take_while)")]
+    ctx.ob("C06.d", "no-iterator-adapters", not adapters, "iterator adapters in has_transition: %s" % adapters, ht.loc())
+    # ScannerImpl::has_transition forwards to the current mode
+    sh = F.fn(r"ScannerImpl::has_transition$")
+    ex, paths = run_fn(sh, F, Model())
+    for p in ret_paths(paths):
+        c = p.calls(r"CompiledScannerMode::has_transition$")
+        ok = len(c) == 1 and "scanner_modes" in S.vstr(c[0][3][0]) and "current_mode" in S.vstr(c[0][3][0]) and S.vstr(c[0][3][1]) == "token_type" and p.end[1] == c[0][4]
+        ctx.ob("C06.d", "ScannerImpl::has_transition-forwards", ok, "forwards to %s" % (S.vstr(c[0][3][0]) if c else None), sh.loc())
+
+    fresh_iterator_rules(ctx)
+    mode_order_rules(ctx)
+
+
+
 def check(ctx):
     F = ctx.facts
     ctx.trust("rustc type checker / MIR construction (nightly), the fact driver")
@@ -193,7 +277,7 @@ def check(ctx):
         r"ScannerImpl::execute_possible_mode_switch$": "switch after a consumed match",
     }
     writers = field_writers(F, "ScannerImpl", "current_mode")
-    ctx.floor("C06.a", "writers of ScannerImpl.current_mode", len(writers), 3)
+    ctx.floor("C06.a", "writers of ScannerImpl.current_mode", len(writers), 1)   # a closed set: additions alarm, fewer writers do not
     for w, sites in sorted(writers.items()):
         ok = any(re.search(rx, w) for rx in allowed)
         ctx.ob("C06.a", "writer:" + M.short_name(w), ok,
@@ -309,84 +393,7 @@ def check(ctx):
         else:
             ctx.ob("C06.c", "switch-path-classified", False, "path does not branch on has_transition's result", es.loc())
 
-    # ---- C06.d three-way table of the ordered search -----------------------------------------------
-    # Orderings are abstracted by the set {L,E,G} of outcomes of (token_type ? entry token type) consistent with
-    # the comparisons a path assumed (cmp+match, <, ==, ... are all accepted forms).
-    from .kernel import OUT2SET, FLIP, binop_set
-    for pat in (r"CompiledScannerMode::has_transition$",):
-        ht = F.fn(pat)
-        ctx.analysed_fn(ht)
-        ex, paths = run_fn(ht, F, Model())
-        table = {}
-        for p in paths:
-            got_item = any(e[0] == "call" and re.search(r"Iterator>::next$", e[2]) for e in p.events) and any("item@" in S.fstr(c) for c, o in p.conds)
-            oset = {"L", "E", "G"}
-            unrelated = []
-            itemsym = None
-            for c, o in p.conds:
-                a_ = b_ = None
-                cs = None
-                if c[0] == "discr" and c[1][0] == "cmp":
-                    a_, b_ = c[1][1], c[1][2]
-                    if isinstance(o, tuple):
-                        continue
-                    cs = OUT2SET.get(dict((dv, n) for n, dv in c[2]).get(o))
-                elif c[0] == "binop" and c[1] in ("Lt", "Le", "Gt", "Ge", "Eq", "Ne") and isinstance(o, bool):
-                    a_, b_ = c[2], c[3]
-                    cs = binop_set(c[1], o)
-                if a_ is None or cs is None:
-                    continue
-                sa, sb = S.fstr(a_), S.fstr(b_)
-                ma, mb = re.match(r"(item@bb\d+)\.0$", sa), re.match(r"(item@bb\d+)\.0$", sb)
-                if sa == "token_type" and mb:
-                    oset &= cs
-                    itemsym = mb.group(1)
-                elif sb == "token_type" and ma:
-                    oset &= {FLIP[x] for x in cs}
-                    itemsym = ma.group(1)
-                else:
-                    unrelated.append("%s vs %s" % (sa, sb))
-            for u in unrelated:
-                ctx.ob("C06.d", "cmp-operands", False, "search compares %s (expected the token type with the entry's token type)" % u, ht.loc())
-            if itemsym is None:
-                if p.end[0] == "return":
-                    table["exhausted"] = S.vstr(p.end[1])
-                    ctx.ob("C06.d", "exhausted->None", variant_of(ex, p, p.end[1]) == "None", "list exhausted returns %s" % S.vstr(p.end[1]), ht.loc())
-                continue
-            for o_ in sorted(oset):
-                name = {"L": "Less", "E": "Equal", "G": "Greater"}[o_]
-                if p.end[0] == "return":
-                    r = p.end[1]
-                    rv = variant_of(ex, p, r)
-                    table[name] = S.vstr(r)
-                    if o_ == "L":
-                        ctx.ob("C06.d", "Less->None", rv == "None", "token type below the entry returns %s (sorted list: no later entry can match)" % S.vstr(r), ht.loc())
-                    elif o_ == "E":
-                        ok = rv == "Some" and S.fstr(r[3][0]) == itemsym + ".1"
-                        ctx.ob("C06.d", "Equal->Some(target of same entry)", bool(ok), "equal token type returns %s" % S.vstr(r), ht.loc())
-                    else:
-                        ctx.ob("C06.d", "Greater->continue", False, "token type above the entry returns %s instead of continuing" % S.vstr(r), ht.loc())
-                elif p.end[0] == "cut":
-                    table[name] = "continue"
-                    ctx.ob("C06.d", name + "->continue", o_ == "G", "search continues when the token type is %s than the entry" % name, ht.loc())
-                else:
-                    ctx.ob("C06.d", "path-end", False, "unexpected path end %s" % (p.end,), ht.loc())
-        ctx.ob("C06.d", "table-complete", set(table) >= {"exhausted", "Less", "Equal", "Greater"}, "table rows: %s" % table, ht.loc())
-        ctx.sample({"rule": "C06.d", "has_transition_table": table})
-    # the iterator ranges over self.transitions without adapters
-    ht = F.fn(r"CompiledScannerMode::has_transition$")
-    adapters = [M.call_name(t) for bb, t in ht.calls(r"iter::Iterator>::(rev|skip|take|filter|step_by|skip_while|take_while)")]
-    ctx.ob("C06.d", "no-iterator-adapters", not adapters, "iterator adapters in has_transition: %s" % adapters, ht.loc())
-    # ScannerImpl::has_transition forwards to the current mode
-    sh = F.fn(r"ScannerImpl::has_transition$")
-    ex, paths = run_fn(sh, F, Model())
-    for p in ret_paths(paths):
-        c = p.calls(r"CompiledScannerMode::has_transition$")
-        ok = len(c) == 1 and "scanner_modes" in S.vstr(c[0][3][0]) and "current_mode" in S.vstr(c[0][3][0]) and S.vstr(c[0][3][1]) == "token_type" and p.end[1] == c[0][4]
-        ctx.ob("C06.d", "ScannerImpl::has_transition-forwards", ok, "forwards to %s" % (S.vstr(c[0][3][0]) if c else None), sh.loc())
-
-    fresh_iterator_rules(ctx)
-    mode_order_rules(ctx)
+    transition_lookup_rules(ctx)
 
     # ---- C06.f the attempt uses the automaton of the current mode ----------------------------------
     pf = F.fn(r"ScannerImpl::peek_from$")
